@@ -72,7 +72,7 @@ static uint64_t lp_digest(uint64_t lp)
 {
 	return gm_digest(lps[lp].state_pointer, lps[lp].rng_ctx->state);
 }
-static uint64_t tq_of(double t) { return t >= 1e18 ? (1ULL << 62) : (uint64_t)(t * 4.0); } /* SIMTIME_MAX -> 2^62 */
+static uint64_t tq_of(double t) { return t >= 1e18 ? (1ULL << 62) : t < 0 ? ((1ULL << 62) + 1) : (uint64_t)(t * 4.0); } /* SIMTIME_MAX -> 2^62, negative sentinel -> 2^62+1 */
 
 static void dist_open(void)
 {
